@@ -3,6 +3,7 @@ import DFV.Lemmas.C19Mesh
 import DFV.Lemmas.C19Demag
 import DFV.Lemmas.C19Conv
 import DFV.Lemmas.C19Real
+import DFV.Lemmas.C19Examples
 /-!
 # C19 — topological and demagnetisation tools obey their physical invariances
 
@@ -75,15 +76,20 @@ theorem orientation_unit (sq : Rat → Rat) (f : Fld) (i : List Nat)
     (cellV (orientation sq f) i).normSq = 1 := by
   rw [cellV_orientation]; exact orient_unit sq _ hsq hz
 
-/-- a square root table that is exact on the values used in the examples -/
-def sqEx (x : Rat) : Rat := if x = 25 then 5 else if x = 100 then 10 else if x = 1 then 1 else 0
-
 example : sqEx (2 * 2 * (V3.mk 3 4 0).normSq) = 2 * sqEx (V3.mk 3 4 0).normSq ∧
     isZeroNorm (2 * sqEx (V3.mk 3 4 0).normSq) = isZeroNorm (sqEx (V3.mk 3 4 0).normSq) ∧
     sqEx (V3.mk 3 4 0).normSq * sqEx (V3.mk 3 4 0).normSq = (V3.mk 3 4 0).normSq ∧
     orient sqEx (V3.mk 3 4 0) = ⟨3/5, 4/5, 0⟩ := by
   simp only [V3.normSq, V3.dot, sqEx, isZeroNorm, absR, orient, V3.sdiv, V3.zero]
   norm_num
+
+/-- the hypotheses of `orientation_scale` / `tcd_scale_invariant` on a concrete field (`(3,4,0)` everywhere, factor 2) -/
+example : (∀ i, (fun _ : List Nat => (2 : Rat)) i ≠ 0) ∧
+    (∀ i, sqEx (2 * 2 * (cellV fEx i).normSq) = 2 * sqEx (cellV fEx i).normSq) ∧
+    (∀ i, isZeroNorm (2 * sqEx (cellV fEx i).normSq) = isZeroNorm (sqEx (cellV fEx i).normSq)) := by
+  refine ⟨fun _ => by norm_num, fun i => ?_, fun i => ?_⟩ <;>
+  · simp only [cellV, fEx, NDA.const, V3.ofList, V3.normSq, V3.dot, sqEx, isZeroNorm, absR]
+    norm_num
 
 /-! ## Topological charge density — both methods -/
 
@@ -145,6 +151,10 @@ theorem tcd_reversal (sq : Rat → Rat) (pi : Rat) (Om : Tri → Rat)
   show tcdVal sq pi Om (negF f) m i = -tcdVal sq pi Om f m i
   exact tcdVal_negF sq pi Om hOm f m i
 
+/-- the oddness hypothesis is satisfiable (and true of the real formula, `bl_angle_real`) -/
+example : ∀ tr : Tri, tr.t ≠ 0 → (fun t : Tri => t.t * (1 + t.d12)) (flipT tr) = -(fun t : Tri => t.t * (1 + t.d12)) tr := by
+  intro tr _; simp [flipT]
+
 /-- Both methods vanish identically on a uniform field — for every validity mask, every
 cell size, periodic or open directions. -/
 theorem tcd_uniform_zero (sq : Rat → Rat) (pi : Rat) (Om : Tri → Rat) (f q : Fld) (v : V3) (hu : uniformF f v)
@@ -153,6 +163,9 @@ theorem tcd_uniform_zero (sq : Rat → Rat) (pi : Rat) (Om : Tri → Rat) (f q :
   intro i
   show [tcdVal sq pi Om f m i] = [0]
   rw [tcdVal_uniform sq pi Om f v hu]
+
+/-- a uniform field -/
+example : uniformF fEx ⟨3, 4, 0⟩ := by intro i; simp [fEx, NDA.const, V3.ofList]
 
 /-- Both methods are unchanged by rescaling the vector lengths, cell by cell (hypotheses as in
 `orientation_scale`). -/
@@ -322,6 +335,10 @@ theorem angle_range (sq acos deg : Rat → Rat) (pi : Rat)
   rw [hv i]
   exact hacos _ (clip1_range _).1 (clip1_range _).2
 
+/-- an `acos` with the required range -/
+example : ∀ x : Rat, -1 ≤ x → x ≤ 1 → 0 ≤ (fun y : Rat => (1 - y) / 2 * 3) x ∧ (fun y : Rat => (1 - y) / 2 * 3) x ≤ 3 := by
+  intro x h1 h2; constructor <;> simp only <;> linarith
+
 /-- The angles live on a mesh one cell shorter in the direction, shifted by half a cell,
 with the same cell size — and a single cell along the direction is refused. -/
 theorem angle_mesh (m : Mesh) (hm : m.Inv) (ax : Nat) (hax : ax < m.ndim) :
@@ -334,6 +351,16 @@ theorem angle_mesh (m : Mesh) (hm : m.Inv) (ax : Nat) (hax : ax < m.ndim) :
     obtain ⟨m', hm', _, hgeo, _, hnd⟩ := angleMesh_ok m hm ax hax h2
     exact ⟨m', hm', angleMesh_n m hm ax hax h2 m' hm', hnd, hgeo⟩
   · exact angleMesh_single m hm ax hax
+
+/-- a well-formed mesh (4 × 3 cells) -/
+example : mEx.Inv := by
+  refine ⟨⟨by decide, rfl, rfl, rfl, by decide, ?_⟩, rfl, ?_⟩
+  · intro a ha
+    have : a = 0 ∨ a = 1 := by simp [mEx] at ha; omega
+    rcases this with rfl | rfl <;> simp [mEx, Region.lo, Region.hi]
+  · intro a ha
+    have : a = 0 ∨ a = 1 := by simp [mEx, Mesh.ndim, Region.ndim] at ha; omega
+    rcases this with rfl | rfl <;> simp [mEx, Mesh.nAt]
 
 /-- The angles do not change under a global rotation (or reflection) of the vectors. -/
 theorem angle_rot_invariant (sq acos deg : Rat → Rat) (q : M3) (hq : q.IsOrth) (f : Fld) (dir units : String) :
@@ -534,6 +561,27 @@ theorem cube_each_third (T : NDA (List Rat)) (m : Mesh) (M : Rat) (n : Nat)
   rw [h3]
   rw [hS1, hS2] at htot
   linarith
+
+/-- a tensor with trace `−δ` and the cyclic symmetry (one cell) -/
+example : (∀ j0 j1 j2, (tEx.get [j0, j1, j2]).getD 0 0 + (tEx.get [j0, j1, j2]).getD 1 0 + (tEx.get [j0, j1, j2]).getD 2 0
+      = if j0 = m1.nAt 0 - 1 ∧ j1 = m1.nAt 1 - 1 ∧ j2 = m1.nAt 2 - 1 then -1 else 0) ∧
+    (∀ j0 j1 j2, (tEx.get [j0, j1, j2]).getD 1 0 = (tEx.get [j1, j2, j0]).getD 0 0 ∧
+      (tEx.get [j0, j1, j2]).getD 2 0 = (tEx.get [j2, j0, j1]).getD 0 0) := by
+  constructor
+  · intro j0 j1 j2
+    simp only [tEx, m1, Mesh.nAt, List.getD_cons_zero, List.getD_cons_succ]
+    by_cases h : j0 = 0 ∧ j1 = 0 ∧ j2 = 0
+    · obtain ⟨rfl, rfl, rfl⟩ := h; norm_num
+    · have : ¬ ([j0, j1, j2] = [0, 0, 0]) := by simpa using h
+      simp [this, h]
+  · intro j0 j1 j2
+    simp only [tEx]
+    by_cases h : j0 = 0 ∧ j1 = 0 ∧ j2 = 0
+    · obtain ⟨rfl, rfl, rfl⟩ := h; simp
+    · have a : ¬ ([j0, j1, j2] = [0, 0, 0]) := by simpa using h
+      have b : ¬ ([j1, j2, j0] = [0, 0, 0]) := by simp; omega
+      have c : ¬ ([j2, j0, j1] = [0, 0, 0]) := by simp; omega
+      simp [a, b, c]
 
 /-- `_N` has that cyclic symmetry when the three cell edges are equal (by construction: the yy and
 zz components are the xx formula at cyclically permuted coordinates and cell edges). -/
